@@ -7,6 +7,7 @@ code by the verif-tag wrapper at every Series/Next.
 -/
 import PromqlVerif.Proofs.PlanContract
 import PromqlVerif.Proofs.Grid
+import PromqlVerif.Proofs.CoalesceProof
 namespace PromqlVerif.C18
 open PromqlVerif Val
 
@@ -75,5 +76,35 @@ theorem steps_in_order (w : Window) (hs : 0 < w.step) (hle : w.start ≤ w.stop)
   have : ¬ w.step ≤ 0 := by omega
   simp only [this, if_false]
   exact walk_pairwise_lt _ _ hs _ _
+
+/-- **the coalesce operator keeps the ID contract, for every order of arrival**: if every child's
+batch carries IDs below its number of series, pairwise distinct within a step, and the children's
+offsets give them disjoint ranges (`coalesce_offsets_disjoint`: what `loadSeries` computes does),
+then every step vector of the merged batch carries pairwise distinct IDs, each inside the range
+of one child - hence below the length of the concatenated series list. -/
+theorem coalesce_keeps_id_contract {V : Type} (ts : List Int) (hts : ts ≠ [])
+    (as : List ((Nat × List (SV V)) × Nat)) (hne : as ≠ [])
+    (hal : AlignedArrivals ts (as.map (·.1))) (hr : ∀ a ∈ as, Ranged a.1 a.2) (hd : DisjointRanges as) :
+    ∃ out, coalesceNext ((as.map (·.1)).map fun a => (a.1, some a.2)) = .ok (some out) ∧
+      out.map (·.1) = ts ∧
+      ∀ sv ∈ out, (sv.2.map (·.1)).Nodup ∧
+        ∀ id ∈ sv.2.map (·.1), ∃ a ∈ as, a.1.1 ≤ id ∧ id < a.1.1 + a.2 := by
+  have hne' : as.map (·.1) ≠ [] := by
+    intro h
+    exact hne (List.map_eq_nil_iff.mp h)
+  refine ⟨_, coalesceNext_spec ts hts _ hal hne', ?_, merged_ids ts as hr hd⟩
+  clear hal hr hd hne hne' hts
+  generalize as.map (·.1) = bs
+  induction ts generalizing bs with
+  | nil => rfl
+  | cons t ts ih => simp [mergedSpec, ih]
+
+theorem coalesce_offsets_disjoint (sizes : List Nat) (i j : Nat) (hij : i < j) (hj : j < sizes.length) :
+    (offsetsOf sizes).getD i 0 + sizes.getD i 0 ≤ (offsetsOf sizes).getD j 0 := by
+  have hi : i < sizes.length := by omega
+  simp only [offsetsOf, List.getD_eq_getElem?_getD, List.getElem?_map, List.getElem?_range hi, List.getElem?_range hj,
+    Option.map_some, Option.getD_some]
+  have := offsets_disjoint sizes i j hij hj
+  simpa [List.getD_eq_getElem?_getD] using this
 
 end PromqlVerif.C18
